@@ -10,6 +10,8 @@
    call can have returned. *)
 From Coq Require Import List ZArith Bool.
 From PV Require Import Model.Waiter Proofs.WaiterProofs Gen.ConstGen Gen.Waiter_bridge.
+From PV Require Import Model.WaiterPool Proofs.WaiterPoolProofs.
+From Coq Require Import Permutation.
 Import ListNotations.
 Local Open Scope Z_scope.
 
@@ -133,3 +135,66 @@ Example C04_example_history :
   map s_dec (run_inst wfixed true wstate_init 0 refute3_toks []) = [Fire; Fire; Discard] /\
   map s_dec (run_inst wfixed false wstate_init 0 refute3_toks []) = [Fire; Fire; Fire].
 Proof. split; vm_compute; reflexivity. Qed.
+
+(* ---------------------------------------------------------------------------------------- *)
+(* The POOL (Model/WaiterPool.v): all instance counts, a schedule per instance (rps-per-instance)
+   or one shared schedule.  The flag an instance decides with is the one written in the pool's
+   configuration, whatever the kind of schedule (instance_discard; bridged to the expression
+   re-read from startInstances by Gen/PoolDeps_bridge.v). *)
+Theorem C04_pool_instance_flag : forall d r, instance_discard {| p_discard := d; p_per_instance := r |} = d.
+Proof. reflexivity. Qed.
+Print Assumptions C04_pool_instance_flag.
+
+(* Whole pools -- any number of instances, any start instants (startup schedule), any profile
+   (token offsets), any response durations per instance, either variant, own schedules or the
+   shared one (each token to the instance that is free first): every token handled by any
+   instance obeys shot_ok for the CONFIGURED discard_overflow: never early; discarded => enabled
+   and >= 2 s late; enabled and >= 2 s late at pick-up => discarded; enabled and fired => less
+   than 2 s after its time; disabled => fired. *)
+Theorem C04_pool_history : forall v p starts offs durs,
+  Forall (Forall (fun x => 0 <= x)) durs ->
+  Forall (fun ks : nat * shot => shot_ok v (p_discard p) (snd ks)) (run_pool v p starts offs durs).
+Proof. exact run_pool_ok. Qed.
+Print Assumptions C04_pool_history.
+
+(* ... and every token gets exactly one fate: with own schedules every instance handles the whole
+   profile (offsets counted from its start), with the shared one each token is handled once. *)
+Theorem C04_pool_tokens : forall v p starts offs durs,
+  Forall (Forall (fun x => 0 <= x)) durs -> starts <> [] ->
+  map (fun ks : nat * shot => s_tok (snd ks)) (run_pool v p starts offs durs) =
+  if p_per_instance p then concat (map (fun s => map (fun o => is_free s + o) offs) (init_states starts durs))
+  else map (fun o => hd 0 starts + o) offs.
+Proof. exact run_pool_tokens. Qed.
+Print Assumptions C04_pool_tokens.
+
+(* Shared schedule under ANY hand-out of the tokens to the instances (not only "free first"), any
+   time spent before each Wait: the tokens instance i takes obey shot_ok for the configured flag;
+   and the hand-out loses / duplicates nothing. *)
+Theorem C04_pool_shared_any_assignment : forall v p i assign toks start durs,
+  Forall (fun q : Z * Z => 0 <= fst q) toks -> Forall (fun x => 0 <= x) durs ->
+  Forall (shot_ok v (p_discard p))
+         (run_inst v (instance_discard p) wstate_init start (taken_by i assign toks) durs).
+Proof. exact shared_any_assignment_ok. Qed.
+Print Assumptions C04_pool_shared_any_assignment.
+
+Theorem C04_pool_assignment_is_a_partition : forall (assign : list nat) (toks : list (Z * Z)) (l : list nat),
+  NoDup l -> (forall a, In a assign -> In a l) -> length assign = length toks ->
+  Permutation (concat (map (fun i => taken_by i assign toks) l)) toks.
+Proof. exact (@taken_by_concat_perm (Z * Z)). Qed.
+Print Assumptions C04_pool_assignment_is_a_partition.
+
+(* non-vacuity: two instances 300 ms apart, tokens at +0/+100/+200/+2500 ms, first response 2.3 s *)
+Example C04_example_pool :
+  let starts := [0; 300000000] in let offs := [0; 100000000; 200000000; 2500000000] in
+  let durs := [[2300000000]; [2300000000]] in
+  map (fun ks : nat * shot => (fst ks, s_dec (snd ks)))
+      (run_pool wfixed {| p_discard := true; p_per_instance := true |} starts offs durs)
+  = [(0%nat, Fire); (0%nat, Discard); (0%nat, Discard); (0%nat, Fire);
+     (1%nat, Fire); (1%nat, Discard); (1%nat, Discard); (1%nat, Fire)] /\
+  map (fun ks : nat * shot => (fst ks, s_dec (snd ks)))
+      (run_pool wfixed {| p_discard := true; p_per_instance := false |} starts offs durs)
+  = [(0%nat, Fire); (1%nat, Fire); (0%nat, Discard); (0%nat, Fire)] /\
+  map (fun ks : nat * shot => s_dec (snd ks))
+      (run_pool wfixed {| p_discard := false; p_per_instance := true |} starts offs durs)
+  = [Fire; Fire; Fire; Fire; Fire; Fire; Fire; Fire].
+Proof. vm_compute. repeat split. Qed.
